@@ -34,7 +34,8 @@ KERNELS = ['Gen/Sampling.v: compute_fraction', 'Gen/Sampling.v: rs_next', 'Gen/S
 RULE = ('cases (op, data, numSlices, seed, params, draw streams): seeds 0..N and large/negative/None x fractions '
         '{0, tiny, .01, .3, .5, .99, 1, >1; with replacement .5, 1, 3, 0} x lists of ints/strings/pairs with duplicates '
         '(length 0..40) x slice counts 1..len+2 x takeSample sizes 0..len+3 x weight vectors (ints, dyadic and '
-        'non-dyadic floats, zeros, [0.1]*10); every case once with the streams of the real twister (recorded) and '
+        'non-dyadic floats, zeros, [0.1]*10); an exhaustive grid on a 4-element list (sizes 0..7 x replacement x slices 1..3 x '
+        'seeds; fractions {0,.01,.5,1} and {.5,1,3}); every case once with the streams of the real twister (recorded) and '
         'scripted streams with adversarial draws (0.0, 1-2^-53, the fraction, every boundary and its neighbours); '
         'non-trivial = non-empty data and a result that is neither an error nor empty-by-construction; distinct by '
         'canonical JSON of the case')
@@ -393,6 +394,22 @@ def generate(rng, tier):
     zeros = LazyScript(lambda key: ([0.0] * 8, [0] * 5))
     out.append(finish(2, [7], 1, 0, (True, 1), zeros, 'scr'))
     out.append(finish(2, [7, 7, 8], 2, 0, (True, 2), LazyScript(lambda key: ([0.0] * 8, [0] * 5)), 'scr'))
+    # ---- exhaustive small scope: sizes 0..len+3 x replacement x slices x seeds; fractions x seeds x slices
+    small = [5, 5, 7, 8]
+    seeds = range(2) if quick else range(8)
+    for num in range(0, len(small) + 4):
+        for wr in (False, True):
+            for nsl in (1, 2, 3):
+                for seed in seeds:
+                    out.append(finish(2, small, nsl, seed, (wr, num), None, 'mt', 0))
+    for f in (0.0, 0.01, 0.5, 1.0):
+        for nsl in (1, 2, 5):
+            for seed in (range(3) if quick else range(20)):
+                out.append(finish(0, small + [5, 9], nsl, seed, (False, f, False), None, 'mt', 0))
+    for f in (0.5, 1.0, 3.0):
+        for nsl in (1, 3):
+            for seed in (range(2) if quick else range(20)):
+                out.append(finish(0, small, nsl, seed, (True, f, False), None, 'mt', 0))
     # ---- randomSplit
     wvs = [[2, 3], [1], [0.1] * 10, [0.5, 0.5], [1, 1, 1], [0.3, 0.3, 0.4], [1e-3, 1.0], [0, 1], [1, 0], [0.0, 0.0, 2.5],
            [3, 0.5], [0.5, 3], [0.1, 0.2, 0.3, 0.4], [1 / 3] * 3, [1e308, 1e308], [5e-324, 5e-324], [0.7, 0.1, 0.2], [1.0],
